@@ -205,6 +205,11 @@ pub struct ReplayFile {
     pub minimised: bool,
     #[serde(default)]
     pub original_len: usize,
+    /// engine "miri": the -Zmiri-seed value and the scenarios-per-process count to replay with
+    #[serde(default)]
+    pub miri_seed: Option<u64>,
+    #[serde(default)]
+    pub miri_count: Option<u64>,
 }
 
 impl ReplayFile {
@@ -542,6 +547,17 @@ pub fn minimise(ex: &mut ExecClient, start: &[u32], class: &str, max_execs: u64,
                 // already tried zeroing
             }
             i += 1;
+        }
+    }
+    // past-the-end draws are 0, so trailing zeros carry no information
+    let mut cand = best.clone();
+    while cand.last() == Some(&0) {
+        cand.pop();
+    }
+    if cand.len() < best.len() {
+        let (c, _) = ex.run(&cand);
+        if c.as_deref() == Some(class.as_str()) {
+            best = cand;
         }
     }
     best
